@@ -1083,3 +1083,16 @@ func mutateJSON(r *rng, data []byte) []byte {
 	}
 	return out
 }
+
+// accessCheckWaiting: some live connection has a subscription whose access request has been
+// announced (flagAccessCalled / callbacks registered) but not answered.
+func (w *world) accessCheckWaiting() bool {
+	for _, cs := range w.serv.VerifSnapshot() {
+		for _, s := range cs.Subs {
+			if s.AccessCbs > 0 || s.Flags&1 != 0 {
+				return true
+			}
+		}
+	}
+	return false
+}
